@@ -107,6 +107,8 @@ struct Stats {
     terminal_transitions: u64,
     finalize_points: u64,
     client_get_in_place: u64,
+    /// configurations whose search completed the box
+    configs_done: u64,
     labels: BTreeMap<String, u64>,
     tolerated: BTreeMap<String, u64>,
     found: BTreeMap<String, Found>,
@@ -130,6 +132,7 @@ impl Stats {
         self.terminal_transitions += o.terminal_transitions;
         self.finalize_points += o.finalize_points;
         self.client_get_in_place += o.client_get_in_place;
+        self.configs_done += o.configs_done;
         self.mw_calls += o.mw_calls;
         self.debug_checks += o.debug_checks;
         for (k, v) in &o.labels {
@@ -544,6 +547,7 @@ fn bfs(ctx: &Ctx, procs: &Processors, cfg: &Cfg, bounds: (usize, usize), mode: M
         }
     }
     stats.completed_len = bounds.0 * (bounds.1 + 2) + 1;
+    stats.configs_done = 1;
     stats
 }
 
@@ -727,7 +731,8 @@ fn main() {
         }
         if s.capped {
             partial = Some(json!({"requests": bx.0, "ops_per_request": bx.1, "states_so_far": s.states, "transitions_so_far": s.transitions,
-                "all_histories_shorter_than_this_many_events_expanded_in_every_configuration": s.completed_len, "wall_s": w}));
+                "all_histories_shorter_than_this_many_events_expanded_in_every_configuration": s.completed_len,
+                "configurations_fully_explored": s.configs_done, "wall_s": w}));
             if s.transitions > best.transitions {
                 // keep the complete box as the headline, report the partial one separately
             }
